@@ -176,12 +176,31 @@ class Ctx:
         self.floors = {}
         self.notes = []
         self.lib = facts  # alias
+        self.alias = {}   # rule ids of a borrowed rule body -> rule id under this property
+
+    def borrow(self, new_rule, item, module, fname, old_prefix):
+        """run a rule body of another property's module under a rule id of THIS property: the borrowed rule decides a
+        mechanism this property's statement depends on (its results are recorded as `new_rule`)"""
+        prev = dict(self.alias)
+        self.alias[old_prefix] = new_rule
+        try:
+            self.guard(new_rule, item, lambda: getattr(__import__(module), fname)(self))
+        finally:
+            self.alias = prev
+
+    def _r(self, rule):
+        for old, new in self.alias.items():
+            if rule == old or rule.startswith(old + "."):
+                return new
+        return rule
 
     # a rule instance that was evaluated and held
     def ok(self, rule, item, instance="", detail=""):
+        rule = self._r(rule)
         self.results.append({"rule": rule, "item": item, "instance": instance, "verdict": "ok", "detail": detail})
 
     def violation(self, rule, item, instance, msg, kind="rule-violated", loc=None):
+        rule = self._r(rule)
         self.results.append({"rule": rule, "item": item, "instance": instance, "verdict": "violation",
                              "kind": kind, "msg": msg, "loc": loc})
 
@@ -193,6 +212,7 @@ class Ctx:
         return cond
 
     def floor(self, rule, what, found, expected):
+        rule = self._r(rule)
         self.floors["%s:%s" % (rule, what)] = {"found": found, "expected_at_least": expected}
         if found < expected:
             self.violation(rule, what, "floor", "only %d instances of %s found, %d confirmed by hand on the reference tree"
@@ -237,6 +257,7 @@ def run_property(prop, tier, seed):
         fx = extract_fixtures()
         ctx.fixture_facts = load_facts([files[0], fx]) if fx else None
     mod.run(ctx)
+    __import__("deps").run(ctx)
     if tier == "thorough" and hasattr(mod, "run_thorough"):
         mod.run_thorough(ctx)
 
